@@ -4,7 +4,7 @@ from __future__ import annotations
 import ast
 
 from .. import AnalysisError
-from ..rules import (check_identity_handler, is_raising, mapper_node_pairs,
+from ..rules import (effective_member, check_identity_handler, is_raising, mapper_node_pairs,
                      where)
 from ..summary import NODE, contains, summarize
 
@@ -514,7 +514,7 @@ def _folders(ctx, model):
                "sums are folded" if ok else
                f"{c.name}.map_sum does not resolve to the folding handler (MRO "
                "puts the identity traversal first)")
-        mc = model.lookup(c, "map_common_subexpression")
+        mc = effective_member(model, c, "map_common_subexpression")
         ok = mc is not None and mc.owner.name == "CSECachingMapperMixin"
         ctx.ob(f"S/folder/{c.name}/cse-mixin-first", ok, c.loc(),
                "CSE caching mix-in wins the MRO" if ok else
